@@ -240,6 +240,16 @@ class Analyzer:
         un = [(a, b, c) for (a, b, c) in cons if not (a[0] in ("n", "iv") and b[0] in ("n", "iv") and st.prove_le(a, b, c))]
         return (not un), un
 
+    @staticmethod
+    def fail_tag(cons, un):
+        """which part of a conjunctive obligation is unproven: lower (first of two) / upper (last) — goes into the key,
+        so that a site reviewed for one part still alarms when the other part stops being provable"""
+        if not un or len(cons) == 1:
+            return ""
+        names = ["lower"] + ["mid"] * (len(cons) - 2) + ["upper"]
+        tags = [names[i] for i, c in enumerate(cons) if c in un]
+        return " #" + "+".join(tags)
+
     def liftable_term(self, t, dirty):
         """term rooted at a parameter whose value at this point is still its value at function entry"""
         if t is None:
@@ -1341,7 +1351,7 @@ class Analyzer:
             rule = None
             if ok:
                 rule = "D1" if (ln[0] == "n" and ln[1] is None) else "D3" if ix[0] == "n" and ix[1] is not None else "D2"
-            self.oblige(bi, "S1", ok, rule, self.describe(t), t, "index %s out of bounds of length %s" % (self.vs(ix), self.vs(ln)),
+            self.oblige(bi, "S1", ok, rule, self.describe(t) + self.fail_tag(cons, un), t, "index %s out of bounds of length %s" % (self.vs(ix), self.vs(ln)),
                         None if ok else self.conj_lift(un))
             self.conj_assume(st, cons)
             return [] if st.bottom else [(t["target"], st)]
